@@ -534,7 +534,7 @@ package commands
 //@   at call commands.delayedSmudge:1 assert arg0__ == gitfilter && arg3__ == req.Payload && arg5__ == req.Header["pathname"] && arg6__ == skip && arg7__ == filter
 //@   at call commands.delayedSmudge:1 assert stcount(s) == iter2(stcount(s))
 //@   at call (*git.FilterProcessScanner).WriteList:1 assert stcount(s) == iter2(stcount(s))
-//@   at call commands.readAvailable:1 assert waited(q)
+//@   at call commands.readAvailable:1 assert waited(q) && arg0__ == available
 // Set-up, the one-shot filters and output helpers used by the loop (assumed frames).
 //@ func requireStdin
 //@   assumed
@@ -574,14 +574,20 @@ package commands
 //@   requires @inv gf != nil && to != nil && from != nil && !dyntype(to, "*os.File") && !is_tee(to)
 //@   at call tools.Spool:1 assert arg0__ == to && rrest(arg1__) == old(rrest(from)) && wbuf(to) == old(wbuf(to))
 //@   at call errors.NewNotAPointerError:1 assert wbuf(to) == scat(old(wbuf(to)), old(rrest(from))) && len(old(rrest(from))) != 0
+// Every transfer taken from the buffer for one list_available_blobs answer is
+// returned (none dropped, none invented), and each becomes exactly one entry
+// of the answer.
 //@ func readAvailable
-//@   assumed
 //@   props C14
-//@   modifies fresh
+//@   modifies fresh, ghost chrecvd
+//@   loop 1 invariant len(ts) == chrecvd(ch) - old(chrecvd(ch))
+//@   ensures len(result) == chrecvd(ch) - old(chrecvd(ch))
 //@ func pathnames
-//@   assumed
 //@   props C14
 //@   modifies fresh
+//@   requires @inv forall_int(i, ts[i], 0 <= i && i < len(ts) ==> ts[i] != nil)
+//@   loop 1 invariant len(pathnames) == rangeindex + 1 && rangeindex + 1 <= len(ts)
+//@   ensures len(result) == len(ts)
 //@ func possiblyMalformedObjectSize
 //@   assumed
 //@   props C14
